@@ -4,7 +4,7 @@ streams (one driver request = one whole layering; every directive is one word, f
   cfg : the live option table (defaultConfig() + collect_renderer_config, regenerated into Generated/Config.lean on every run);
         0-3 INI files (really written and read by configparser) + a command line (really parsed by argparse) through the
         real `plasTeX.client.main` (only `run` is replaced by a function that captures the config);
-        observation = config[section][key] of every option.
+        observation = config[section][key] and section.get(key, default) of every option, and get() of an unknown key.
   tab : the same with a random small option table carried in the request (`opt/...` words) built from the real option classes:
         ties the model for *every* table the theorems quantify over (several dictionary options per section, equal keys in
         different sections, booleans with and without a `!` flag, several option strings).
@@ -32,7 +32,9 @@ LEVEL_TEXT = ('Lean 4 theorems over a line-by-line model of ConfigManager.read /
               'unknown_key_ignored_without_dict, line_concerns_one_option, bool_words (setFromString accepts exactly yes/true/on/1 and '
               'no/false/off/0, any case), bool_flag_pair, interp_substitutes (every format string of literal text, %%, %(name)s), interp_percent, '
               'interp_no_percent, readBack_format, readBack_meets_oracle, spec_parser_sound, lookup_resolution (name resolution incl. the '
-              'swallowed-KeyError quirk), interp_terminates_acyclic (no RecursionError when references are ranked), and the type-appropriate-value '
+              'swallowed-KeyError quirk), updateFromDict_reads_own_occurrences (the argparse namespace is keyed by option.name: on tables with pairwise '
+              'distinct dests and option strings every option reads back exactly its own occurrences; shared_dest_counterexample otherwise; '
+              'table_dests_distinct re-checked on the live table), get_is_getitem / get_default_on_keyerror (section.get), interp_terminates_acyclic (no RecursionError when references are ranked), and the type-appropriate-value '
               'round trips int_written_is_read, float_written_is_read, words_written_are_read, dict_entry_written_is_read, file_sets_int, '
               'file_sets_bool (what str() prints / blank-joined words / k=v entries are read back as the same value); asIs_counterexample is the '
               'kernel-checked D3 witness for the pinned code. The live option table (all sections incl. html5 and mathjax-macros) is regenerated '
@@ -161,30 +163,42 @@ LEAN_TY = {'str': '.atom .str', 'int': '.atom .int', 'flt': '.atom .flt', 'bool'
 
 
 def live_table():
-    """[(sec, key, ty, default, flags, noflags)] in config order"""
+    """[(sec, key, ty, default, flags, noflags, dest)] in config order; dest = option.name, the argparse dest that
+    registerArgparse registers and updateFromDict reads back (recorded as found: shared dests are the model's business)"""
     config = live_config()
-    rows, names = [], set()
+    rows = []
     for sec, section in config.items():
         for key, o in section.data.items():
             ty, fl, nfl = classify(o)
-            if o.name in names:
-                raise ValueError('argparse dest %r used twice' % o.name)
-            names.add(o.name)
-            if o.name != fl[0].lstrip('-'):
-                raise ValueError('dest of %s' % o.name)
-            for s in [sec, key] + fl + nfl:
-                if not s or any(ord(c) < 33 or ord(c) > 126 or c in '/,=' for c in s):
-                    raise ValueError('unexpected characters in %r' % s)
-            rows.append((sec, key, ty, o.value, fl, nfl))
+            dest = o.name
+            for s in [sec, key, dest] + fl + nfl:
+                if not isinstance(s, str) or not s or any(ord(c) < 33 or ord(c) > 126 or c in '/,=' for c in s):
+                    raise ValueError('unexpected characters in %r' % (s,))
+            rows.append((sec, key, ty, o.value, fl, nfl, dest))
     return rows
 
 
 _table = {}
 
 
+def table_from_lean():
+    """the last generated table, read back from Generated/Config.lean (used when the live objects cannot be built)"""
+    import re as _re
+    from framework import LEAN
+    src = open(os.path.join(LEAN, 'PlasVerif', 'Generated', 'Config.lean')).read()
+    rows = []
+    for m in _re.finditer(r'^  -- ROW (.*)$', src, _re.M):
+        sec, key, ty, d, fl, nfl, dest = json.loads(m.group(1))
+        rows.append((sec, key, ty, dec_val(d), fl, nfl, dest))
+    return rows
+
+
 def table():
     if 'rows' not in _table:
-        _table['rows'] = live_table()
+        try:
+            _table['rows'] = live_table()
+        except Exception:
+            _table['rows'] = table_from_lean()
     return _table['rows']
 
 
@@ -192,16 +206,17 @@ def gen_config():
     rows = live_table()
     _table['rows'] = rows
     body = []
-    for sec, key, ty, d, fl, nfl in rows:
-        body.append('  -- [%s] %s : %s  %s' % (sec, key, ty, ' '.join(fl + ['!' + x for x in nfl])))
-        body.append('  ⟨%s, %s, %s, %s, [%s], [%s]⟩' % (lean_str(sec), lean_str(key), LEAN_TY[ty], lean_val(d),
-                                                      ', '.join(lean_str(x) for x in fl), ', '.join(lean_str(x) for x in nfl)))
+    for sec, key, ty, d, fl, nfl, dest in rows:
+        body.append('  -- [%s] %s : %s  %s  (dest %s)\n  -- ROW %s' % (sec, key, ty, ' '.join(fl + ['!' + x for x in nfl]), dest,
+                                                                    json.dumps([sec, key, ty, enc_val(d), fl, nfl, dest])))
+        body.append('  ⟨%s, %s, %s, %s, %s, [%s], [%s]⟩' % (lean_str(sec), lean_str(key), lean_str(dest), LEAN_TY[ty], lean_val(d),
+                                                          ', '.join(lean_str(x) for x in fl), ', '.join(lean_str(x) for x in nfl)))
     lines = []
     for i in range(0, len(body), 2):
         lines.append(body[i] + '\n' + body[i + 1] + (',' if i + 2 < len(body) else ''))
     src = (extract.HEADER % ('plasTeX/Config.py defaultConfig() + plasTeX/client.py collect_renderer_config (live objects)', 'probed') +
            'import PlasVerif.Model.Config\nnamespace PlasVerif.Generated.Config\nopen PlasVerif.Model.Config\n'
-           '/-! the option table: section, key, type, default, option strings, `!`-option strings; strings as code points -/\n'
+           '/-! the option table: section, key, argparse dest, type, default, option strings, `!`-option strings; strings as code points -/\n'
            'def table : Table := [\n' + '\n'.join(lines) + '\n]\nend PlasVerif.Generated.Config\n')
     return 'PlasVerif/Generated/Config.lean', src, 'probed'
 
@@ -213,8 +228,8 @@ GENERATED = [gen_config]
 def line_of(tab, files, argv):
     """tab: None or rows; files: [[(sec, [(k, v)])]]; argv: [(flag, [args])]"""
     ws = []
-    for sec, key, ty, d, fl, nfl in (tab or []):
-        ws.append('/'.join(['opt', enc_s(sec), enc_s(key), ty, enc_val(d), ','.join(map(enc_s, fl)), ','.join(map(enc_s, nfl))]))
+    for sec, key, ty, d, fl, nfl, dest in (tab or []):
+        ws.append('/'.join(['opt', enc_s(sec), enc_s(key), ty, enc_val(d), ','.join(map(enc_s, fl)), ','.join(map(enc_s, nfl)), enc_s(dest)]))
     for f in files:
         ws.append('file')
         for sec, items in f:
@@ -250,7 +265,7 @@ def parse_line(line):
         p = w.split('/')
         if p[0] == 'opt':
             tab.append((dec_s(p[1]), dec_s(p[2]), p[3], dec_val(p[4]), [dec_s(x) for x in p[5].split(',') if x],
-                        [dec_s(x) for x in p[6].split(',') if x]))
+                        [dec_s(x) for x in p[6].split(',') if x], dec_s(p[7])))
         elif p[0] == 'file': files.append([])
         elif p[0] == 'sec': files[-1].append((dec_s(p[1]), []))
         elif p[0] == 'kv': files[-1][-1][1].append((dec_s(p[1]), dec_s(p[2])))
@@ -369,7 +384,7 @@ def entry_value(rng, et, mal):
 
 def cli_occs(rng, tab, row, mal):
     """occurrences [(flag, args)] for one option"""
-    sec, key, ty, d, fl, nfl = row
+    sec, key, ty, d, fl, nfl = row[:6]
     if ty == 'bool':
         n = 1 if rng.random() < 0.8 else 2
         return [(rng.choice(fl + nfl), []) for _ in range(n)]
@@ -455,6 +470,15 @@ def gen_layering(rng, tab, custom):
     return files, argv
 
 
+def with_dest(rows):
+    """complete 6-tuples by the dest the real option classes compute when the table is built"""
+    try:
+        config = build_config([r[:6] for r in rows])
+        return [tuple(r[:6]) + (config[r[0]].data[r[1]].name,) for r in rows]
+    except Exception:       # the classes cannot even be instantiated: keep the documented rule (first option string)
+        return [tuple(r[:6]) + (r[4][0].lstrip('-'),) for r in rows]
+
+
 def gen_table(rng):
     """a random small option table built from the real option classes"""
     nsec = rng.randint(1, 3)
@@ -480,7 +504,7 @@ def gen_table(rng):
             elif ty == 'dflt': d = rng.choice([{}, {'k1': 1.5}])
             else: d = rng.choice([{}, {'k1': 'v'}])
             rows.append((sec, key, ty, d, fl, nfl))
-    return rows
+    return with_dest(rows)
 
 
 def sweep_cases(rng, tab):
@@ -524,7 +548,9 @@ def corpus():
     L = lambda files, argv: line_of(None, files, argv)
     T1 = [('sa', 'base-url', 'str', 'x%(nosuch)s', ['--o1'], []), ('sb', 'base-url', 'str', 'second', ['--o2'], []),
           ('sb', 'alpha', 'str', '<%(base-url)s>', ['--o3'], [])]
+    T1 = with_dest(T1)
     T2 = [('sa', 'alpha', 'dint', {}, ['--o1'], []), ('sa', 'beta', 'dstr', {'k1': 'v'}, ['--o2'], []), ('sa', 'gamma', 'bool', True, ['--o3'], ['--no-o3'])]
+    T2 = with_dest(T2)
     extra = []
     d = os.path.join(os.path.dirname(os.path.dirname(os.path.dirname(os.path.abspath(__file__)))), 'corpus', 'C16')
     if os.path.isdir(d):
@@ -545,6 +571,12 @@ def corpus():
         Case('cfg', L([[('general', [('plugins', 'a b')]), ('counters', [('chapter', '3'), ('counters', 'section=2, chapter = 4')])],
                        [('general', [('plugins', 'c')])]],
                       [('--plugins', ['d', 'e']), ('--counter', ['chapter', '9']), ('--link', ['next', 'u', 't']), ('--plugins', [])]), None, 'corpus'),
+        # options that share a key ([images] base-url / [document] base-url) must not share a command-line slot
+        Case('one', L([[('document', [('base-url', 'http://d/')])]], [('--image-base-url', ['http://i/'])]), None, 'corpus'),
+        Case('one', L([[('images', [('base-url', 'http://i/')])]], [('--base-url', ['http://d/'])]), None, 'corpus'),
+        # values with %(name)s / %% read through section.get() as well
+        Case('cfg', L([[('files', [('filename', '%(theme)s-page'), ('input-encoding', '%(output-encoding)s')]), ('document', [('title', '100%% %(renderer)s'), ('lang-terms', '%(split-level)s.xml x')])]],
+                      [('--theme', ['mytheme']), ('--output-encoding', ['latin-1'])]), None, 'corpus'),
         Case('cfg', L([], [('--split-level', ['x'])]), None, 'corpus'),
         Case('cfg', L([[('files', [('split-level', 'x')])]], []), None, 'corpus'),
         Case('cfg', L([], [('--link', ['a'])]), None, 'corpus'),
@@ -586,7 +618,7 @@ def build_config(tab):
     config = CM.ConfigManager()
     cls = {'str': CM.StringOption, 'int': CM.IntegerOption, 'flt': CM.FloatOption, 'bool': CM.BooleanOption, 'list': CM.MultiStringOption}
     cls.update(_dict_classes())
-    for sec, key, ty, d, fl, nfl in tab:
+    for sec, key, ty, d, fl, nfl in [r[:6] for r in tab]:
         if sec not in config:
             config.addSection(sec)
         config[sec][key] = cls[ty]('doc', options=' '.join(fl + ['!' + x for x in nfl]), default=copy.deepcopy(d))
@@ -619,16 +651,35 @@ def write_files(files, d, seed):
     return paths
 
 
+_SENTINEL = object()
+
+
 def observe(config):
-    out = []
+    """config[section][key] of every option, then (after `#`) section.get(key, default) of every option (`=` same value,
+    `D` the default came back) and `U1` when get() of an unknown key gives the default in every section"""
+    out, gets, unknown = [], [], True
     for sec, section in config.items():
         for key in section.data:
             try:
-                out.append(enc_val(section[key]))
+                v = enc_val(section[key])
             except BaseException as e:
-                if isinstance(e, KeyboardInterrupt): raise
-                out.append('e:' + canon_exc(e))
-    return 'ok:' + '|'.join(out)
+                if isinstance(e, KeyboardInterrupt) or type(e).__name__ == 'CaseTimeout': raise
+                v = 'e:' + canon_exc(e)
+            out.append(v)
+            try:
+                g = section.get(key, _SENTINEL)
+                g = 'D' if g is _SENTINEL else enc_val(g)
+            except BaseException as e:
+                if isinstance(e, KeyboardInterrupt) or type(e).__name__ == 'CaseTimeout': raise
+                g = 'e:' + canon_exc(e)
+            gets.append('=' if g == v else g)
+        try:
+            if section.get('no-such-option-xyz', _SENTINEL) is not _SENTINEL or section.get('no-such-option-xyz') is not None:
+                unknown = False
+        except BaseException as e:
+            if isinstance(e, KeyboardInterrupt) or type(e).__name__ == 'CaseTimeout': raise
+            unknown = False
+    return 'ok:' + '|'.join(out) + '#' + '|'.join(gets) + ('|U1' if unknown else '|U0')
 
 
 def run_main(tab, files, argv, seed=0):
@@ -662,14 +713,22 @@ def run_main(tab, files, argv, seed=0):
 def impl(case, aux):
     tab, files, argv = parse_line(case.line)
     if 'defaults_obs' not in _env:
-        _env['defaults_obs'] = observe(live_config())
+        try:
+            _env['defaults_obs'] = observe(live_config())
+        except Exception:
+            _env['defaults_obs'] = None
     try:
         config = run_main(tab, files, argv, zlib.crc32(case.line.encode()))
     except BaseException as e:
         if isinstance(e, KeyboardInterrupt) or type(e).__name__ == 'CaseTimeout':
             raise
         return 'err:' + canon_exc(e)
-    return observe(config)
+    try:
+        return observe(config)
+    except BaseException as e:      # the implementation raised while being observed: an observation like any other
+        if isinstance(e, KeyboardInterrupt) or type(e).__name__ == 'CaseTimeout':
+            raise
+        return 'raised-' + type(e).__name__
 
 
 def judge(o):
@@ -683,12 +742,21 @@ def first_diff(impl_s, spec_s, line):
     try:
         tab, _, _ = parse_line(line)
         rows = tab or table()
-        a, b = impl_s[3:].split('|'), spec_s[3:].split('|')
         if not impl_s.startswith('ok:'):
             return 'implementation raised %s; expected values for every option' % impl_s
-        for r, x, y in zip(rows, a, b):
+        (ai, ag), (bi, bg) = [x.split('|') for x in impl_s[3:].split('#')], [x.split('|') for x in spec_s[3:].split('#')]
+        if len(ai) != len(bi):
+            return 'the implementation has %d options, the table %d' % (len(ai), len(bi))
+        for r, x, y in zip(rows, ai, bi):
             if x != y:
-                return 'option [%s] %s (%s): observed %s, expected %s' % (r[0], r[1], r[2], show(x), show(y))
+                return 'option [%s] %s (%s): config[section][key] observed %s, expected %s' % (r[0], r[1], r[2], show(x), show(y))
+        for r, x, y, v in zip(rows, ag, bg, bi):
+            if x != y:
+                return 'option [%s] %s (%s): section.get(key) observed %s, expected %s (the value of section[key])' % (
+                    r[0], r[1], r[2], 'the default' if x == 'D' else show(x), show(v))
+        if ag[-1:] != bg[-1:]:
+            return 'section.get() of an unknown key does not return the default'
+        return 'options differ in number: %d vs %d' % (len(ai), len(bi))
     except Exception as e:
         return 'diff failed: %r' % e
     return ''
